@@ -648,7 +648,7 @@ pub fn run(ctx: &Ctx) -> &'static str {
     ctx.explore(
         "event-loop",
         "generated interleavings of the event loop's arms on the real shell (client datagrams of all kinds/lengths/sequence numbers incl. repeats and bursts, real uplink packets, 15 ms flush ticks, housekeeping, clock steps) with 1..4 uplinks of which a non-empty subset is registered, both modes, guard on/off, all batch regimes, send failures and re-registration; per-link queue equation after every step; non-trivial = unique copies on >= 2 links and >= 1 threshold flush and >= 1 timer flush",
-        ctx.tier.pick(6_000, 120_000),
+        ctx.tier.pick(16_000, 200_000),
         || strategy(mo),
         |_| check,
     );
